@@ -405,6 +405,33 @@ func (f *Fn) CondCons(cond ssa.Value, truth bool) []Cons {
 	}
 	op, x, y, ok := ssax.CmpOp(cond)
 	if !ok {
+		// a library predicate with a single comparison as its body (atEOF(cur) = cur >= r.file.len): its condition with
+		// the arguments substituted
+		if call, isCall := cond.(*ssa.Call); isCall && f.Sub != nil && f.depth < 3 {
+			callee := call.Call.StaticCallee()
+			if callee != nil && !call.Call.IsInvoke() && len(callee.Blocks) == 1 && callee.Signature.Results().Len() == 1 {
+				if ret, isRet := callee.Blocks[0].Instrs[len(callee.Blocks[0].Instrs)-1].(*ssa.Return); isRet && len(ret.Results) == 1 {
+					pure := true
+					for _, in := range callee.Blocks[0].Instrs {
+						switch in.(type) {
+						case *ssa.Store, *ssa.MapUpdate, *ssa.Go, *ssa.Defer, *ssa.Panic, *ssa.Send:
+							pure = false
+						}
+					}
+					if cf := f.Sub(callee); pure && cf != nil {
+						var out []Cons
+						for _, cs := range cf.CondCons(ret.Results[0], truth) {
+							e, ok := f.substitute(cs.E, callee, call.Call.Args)
+							if !ok {
+								return nil
+							}
+							out = append(out, Cons{E: e, Ne: cs.Ne, Why: "predicate " + callee.Name() + ": " + cs.Why})
+						}
+						return out
+					}
+				}
+			}
+		}
 		return nil
 	}
 	if !truth {
